@@ -24,7 +24,7 @@
 (***************************************************************************)
 EXTENDS Naturals, Integers, Sequences, FiniteSets, TLC, Json, IOUtils
 
-E == INSTANCE Elab WITH did <- 1, done <- {}, part <- {}, wr <- {}, phase <- "", headed <- {},
+E == INSTANCE Elab WITH did <- 1, done <- {}, part <- {}, wr <- {}, reach <- {}, phase <- "", headed <- {},
                         verdict <- "", fin <- FALSE
    \* only the pure operators of Elab are used here
 
